@@ -244,6 +244,35 @@ class Facts:
             for a in d['adts']:
                 self.adts[d['crate'] + '::' + a['name']] = a
         self._cg = None
+        self.aliases = {}
+        self._resolve_renames()
+
+    def _resolve_renames(self):
+        """A function recorded in anchors.json that is absent now, while exactly one *new* function of the same
+        module has the identical signature, is taken to be that function renamed."""
+        path = os.path.join(VERIF, 'rules', 'anchors.json')
+        if not os.path.exists(path):
+            return
+        known = json.load(open(path))
+        missing = [q for q in known if q not in self.by_qname]
+        if not missing:
+            return
+        fresh = {}
+        for q, l in self.by_qname.items():
+            if q not in known and l[0].kind != 'Closure':
+                fresh.setdefault(q.rsplit('::', 1)[0], []).append(l[0])
+        for q in missing:
+            sig = known[q]
+            cands = [f for f in fresh.get(q.rsplit('::', 1)[0], [])
+                     if f.kind == sig['kind'] and f.d.get('sig_inputs') == sig['in'] and f.d.get('sig_output') == sig['out']]
+            others = [m for m in missing if m != q and m.rsplit('::', 1)[0] == q.rsplit('::', 1)[0] and known[m] == sig]
+            if len(cands) == 1 and not others:
+                self.aliases[q] = cands[0].qname
+        try:
+            import pathrules
+            pathrules.set_aliases(self.aliases)
+        except ImportError:
+            pass
 
     def missing_units(self):
         return [u for u in UNITS if u not in self.crates]
@@ -251,6 +280,8 @@ class Facts:
     def fn(self, qname):
         """Unique function by qualified name (`oal_compiler::eval::cast_schema`); None if absent."""
         l = self.by_qname.get(qname)
+        if not l and qname in self.aliases:
+            l = self.by_qname.get(self.aliases[qname])
         if not l:
             return None
         return l[0]
